@@ -75,6 +75,20 @@ Theorem C16_few_values_within_budget : forall (I : mef_inst) (subset : list edge
 Proof. exact mef2_within_budget. Qed.
 Print Assumptions C16_few_values_within_budget.
 
+(* the E1 comparison itself is verified: when the extracted checker accepts, the LP read back from the solver and the model's LP
+   have the same satisfying assignments, the same objective function and direction -- hence the same optimal solutions.  Every
+   theorem above about `sat a (encode_mef I / encode_mef2)` therefore holds for the LP the implementation built on that instance. *)
+From FP Require Import LinEquiv.
+Theorem C16_lp_comparison_is_verified : forall (m1 m2 : milp), milp_equiv_b m1 m2 = true ->
+  (forall a, sat a m1 <-> sat a m2) /\ (forall a, (objective a m1 == objective a m2)%Q) /\ maximize m1 = maximize m2.
+Proof. exact milp_equiv_sound. Qed.
+Print Assumptions C16_lp_comparison_is_verified.
+
+Theorem C16_equivalent_lps_have_the_same_optima : forall (m1 m2 : milp), milp_equiv_b m1 m2 = true ->
+  forall a, (sat a m1 /\ forall b, sat b m1 -> obj_le m1 a b) <-> (sat a m2 /\ forall b, sat b m2 -> obj_le m2 a b).
+Proof. exact milp_equiv_optimal. Qed.
+Print Assumptions C16_equivalent_lps_have_the_same_optima.
+
 (* ---- non-vacuity: a -> b (3), b -> c (5): the flow 3,3 (err 0,2) satisfies the model; b is conserved *)
 Definition ex_mef : mef_inst :=
   {| mef_nodes := [0; 1; 2]%N; mef_edges := [(0, 1); (1, 2)]%N; mef_flow := [((0, 1)%N, 3); ((1, 2)%N, 5)];
